@@ -412,9 +412,30 @@ def replay(case):
     return [v for v in acc.violations if v.fingerprint == case.get('fingerprint', v.fingerprint)]
 
 
+def minimise(violations, seed):
+    """Put, for every reported fingerprint, the smallest family member showing it first (the runner records
+    the first case per fingerprint): the family is re-walked simplest first, up to two snippets."""
+    fps = []
+    for v in violations:
+        if v.fingerprint not in fps:
+            fps.append(v.fingerprint)
+    found = {}
+    for _, names, text in ledgers.family_sharded(2, 0, 1, seed=seed):
+        if all(fp in found for fp in fps):
+            break
+        acc = Acc()
+        explore_member(acc, names, text, seed)
+        for v in acc.violations:
+            if v.fingerprint in fps and v.fingerprint not in found:
+                found[v.fingerprint] = v
+    return [found[fp] for fp in fps if fp in found] + list(violations)
+
+
 def run(ctx):
     n = ctx.pick(3, 4)
     acc = run_shards(shard_fn, ctx.jobs, n, ctx.seed, nshards=max(ctx.jobs, 1) * 4)
+    if acc.violations:
+        acc.violations = minimise(acc.violations, ctx.seed)
     size = ledgers.family_size(n)
     assert acc.n['ledgers'] == size, (acc.n['ledgers'], size)
     columns = sorted(acc.sets['columns'])
